@@ -34,6 +34,13 @@ pub struct C34Scn {
     pub ops: Vec<TOp>,
     /// machine arm: attach to a simulator instead of polling directly
     pub machine: bool,
+    /// machine arm: an external-interrupt source registered *before* the timer raises at these of
+    /// its polls (the run is resumed after each `SimErr::Interrupt`)
+    #[serde(default)]
+    pub ext_ticks: Vec<u32>,
+    /// machine arm: a thread panics while holding the timer's mutex at this boundary
+    #[serde(default)]
+    pub poison_at: Option<u32>,
 }
 pub struct C34;
 
@@ -252,7 +259,14 @@ fn machine(s: &C34Scn, out: &mut Outcome) -> Option<Violation> {
         psr: None,
         kb: IoSpec::Absent,
         disp: IoSpec::Absent,
-        devs: vec![DevSpec::Timer(TimerSpec { seed: s.seed, lo: s.lo, hi: s.hi, incl: s.incl, vect: s.vect, prio: s.prio, enabled: true })],
+        devs: {
+            let mut d = vec![];
+            if !s.ext_ticks.is_empty() {
+                d.push(DevSpec::Script(crate::env::ScriptSpec { ports: vec![], vect: 0x90, prio: 0, raises: vec![], externals: s.ext_ticks.clone(), read_refuse: vec![], write_refuse: vec![], read_base: 0, mcr_clear: vec![], wrap: 0 }));
+            }
+            d.push(DevSpec::Timer(TimerSpec { seed: s.seed, lo: s.lo, hi: s.hi, incl: s.incl, vect: s.vect, prio: s.prio, enabled: true }));
+            d
+        },
         iregs: vec![],
         events: vec![],
         ops: vec![],
@@ -270,12 +284,65 @@ fn machine(s: &C34Scn, out: &mut Outcome) -> Option<Violation> {
     let total: u32 = s.ops.iter().map(|o| if let TOp::Poll(n) = o { *n } else { 0 }).sum::<u32>().clamp(200, 6000);
     let mut last: Option<u32> = None;
     let mut entries = 0u32;
+    // raises as the timer itself reports them (device log), measured in simulator boundaries
+    let timer_ix = w.timers.first().map(|t| t.0);
+    let timer_dev = w.dev_ix.get(timer_ix.unwrap_or(0)).copied();
+    let mut last_raise: Option<u32> = None;
+    let mut raises = 0u32;
+    let faulty = !s.ext_ticks.is_empty() || s.poison_at.is_some();
+    let _ = w.log.take();
     for tick in 0..total {
+        if s.poison_at == Some(tick) {
+            if let Some((_, t)) = w.timers.first() {
+                let t2 = t.clone();
+                let _ = std::thread::spawn(move || {
+                    let _g = t2.lock().unwrap_or_else(|e| e.into_inner());
+                    std::panic::resume_unwind(Box::new("poison"));
+                })
+                .join();
+                out.bump("fired.lock-poison");
+            }
+        }
         let d0 = w.sim.frame_stack.len();
         match guarded(|| w.sim.step_in()) {
             Ok(Ok(())) => {}
+            Ok(Err(lc3_ensemble::sim::SimErr::Interrupt(_))) if !s.ext_ticks.is_empty() => {
+                out.bump("fired.irq-external");
+            }
             Ok(Err(e)) => return Some(Violation { class: "machine-error".into(), step: tick as u64, detail: format!("{e:?}") }),
             Err(p) => return Some(Violation { class: "panic-in-step".into(), step: tick as u64, detail: p }),
+        }
+        if faulty {
+            // every simulator boundary is one poll of the timer; its answer is in the device log
+            let recs = w.log.take();
+            let polled: Vec<&crate::env::Rec> = recs.iter().filter(|r| matches!(r, crate::env::Rec::Poll { dev, .. } if Some(*dev) == timer_dev)).collect();
+            if polled.len() != 1 {
+                return Some(Violation { class: "timer-poll-count".into(), step: tick as u64, detail: format!("boundary {tick}: the timer was polled {} times (one poll per boundary is what its interval counts)", polled.len()) });
+            }
+            if matches!(polled[0], crate::env::Rec::Poll { res: crate::env::PollRes::Vect(..), .. }) {
+                raises += 1;
+                match last_raise {
+                    Some(l) => {
+                        let gap = tick - l - 1;
+                        if gap < s.lo || gap > max {
+                            return Some(Violation { class: "gap-out-of-range".into(), step: tick as u64, detail: format!("timer raised at boundaries {l} and {tick}: {gap} polls in between, range {}..={max}", s.lo) });
+                        }
+                    }
+                    None => {
+                        if tick + 1 > max + 1 {
+                            return Some(Violation { class: "first-interrupt-late".into(), step: tick as u64, detail: format!("first raise at poll {}, range maximum {max}", tick + 1) });
+                        }
+                    }
+                }
+                last_raise = Some(tick);
+            } else if let Some(l) = last_raise {
+                if tick - l > max + 1 {
+                    return Some(Violation { class: "gap-out-of-range".into(), step: tick as u64, detail: format!("no raise for {} boundaries, range maximum {max}", tick - l) });
+                }
+            } else if tick + 1 > max + 1 {
+                return Some(Violation { class: "first-interrupt-late".into(), step: tick as u64, detail: format!("{} boundaries without a raise, range maximum {max}", tick + 1) });
+            }
+            continue;
         }
         if w.sim.frame_stack.len() > d0 && w.sim.pc == haddr {
             entries += 1;
@@ -309,6 +376,10 @@ fn machine(s: &C34Scn, out: &mut Outcome) -> Option<Violation> {
     fp.add(s.hi as u64);
     fp.add(entries as u64);
     out.trace = fp.0;
+    if raises >= 3 {
+        out.bump("probe.machine-arm-faulty");
+        out.fingerprint = Some(fp.0 ^ 0x4E ^ raises as u64);
+    }
     if entries >= 3 {
         out.bump("probe.machine-arm");
         out.fingerprint = Some(fp.0 ^ 0x4D);
@@ -323,7 +394,7 @@ impl Check for C34 {
     }
     fn meta(&self) -> Meta {
         Meta {
-            rule: "Real TimerDevice with random seeds (and None under controlled ambient entropy), exact counts n>=1, inclusive and half-open ranges with 1<=min<=max (including width-1 half-open ranges n..n+1), vectors, priorities (incl. >7). Direct arm: poll histories of up to ~6000 polls interleaved with enable/disable, io_reset, reset_remaining, set_range/set_exact, and toggles aimed at a chosen remaining count (poll until get_remaining()==k, then toggle). Window oracle: polls strictly between consecutive interrupts in [min,max]; first interrupt of a window by poll max+1; sampled remaining after a reset in range; never an interrupt while disabled; priority min(p,7); a twin timer with the same seed and history agrees poll by poll. Machine arm (1/5): the timer attached to a simulator running a counting loop with a template handler; entry boundaries give the same gap bounds. Non-trivial: >=3 interrupts in one window.",
+            rule: "Real TimerDevice with random seeds (and None under controlled ambient entropy), exact counts n>=1, inclusive and half-open ranges with 1<=min<=max (including width-1 half-open ranges n..n+1), vectors, priorities (incl. >7). Direct arm: poll histories of up to ~6000 polls interleaved with enable/disable, io_reset, reset_remaining, set_range/set_exact, and toggles aimed at a chosen remaining count (poll until get_remaining()==k, then toggle). Window oracle: polls strictly between consecutive interrupts in [min,max]; first interrupt of a window by poll max+1; sampled remaining after a reset in range; never an interrupt while disabled; priority min(p,7); a twin timer with the same seed and history agrees poll by poll. Machine arm (1/5): the timer attached (as Arc<Mutex<TimerDevice>>) to a simulator running a counting loop with a template handler; entry boundaries give the same gap bounds; in part of these runs an external-interrupt source registered before the timer fires at scheduled polls (the run resumes after SimErr::Interrupt) and/or a thread panics while holding the timer's mutex: the timer must still see exactly one poll per boundary and keep raising within its range (raises read from the device log). Non-trivial: >=3 interrupts in one window.",
             components_real: &["TimerDevice (new, poll_interrupt, io_reset, reset_remaining, set_range, set_exact, enabled)", "Simulator + interrupt entry (machine arm)"],
             components_stub: &["poll driver", "entropy source for unseeded timers"],
             assumptions: &["ranges containing 0 and the exact count 0 are outside the gap clause (the property names n>=1); they are generated only for the disabled=>never and reproducibility clauses"],
@@ -380,7 +451,7 @@ impl Check for C34 {
                 }
             }
         }
-        C34Scn { entropy: r.next_u64(), seed: if r.chance(1, 6) { None } else { Some(r.next_u64()) }, lo, hi, incl, vect: 0x81 + r.below(0x70) as u8, prio: if machine { 1 + r.below(7) as u8 } else { r.below(10) as u8 }, ops, machine }
+        C34Scn { entropy: r.next_u64(), seed: if r.chance(1, 6) { None } else { Some(r.next_u64()) }, lo, hi, incl, vect: 0x81 + r.below(0x70) as u8, prio: if machine { 1 + r.below(7) as u8 } else { r.below(10) as u8 }, ops, machine, ext_ticks: if machine && r.chance(1, 3) { crate::c16::sorted((0..1 + r.below(6)).map(|_| 1 + r.below(400) as u32).collect()) } else { vec![] }, poison_at: if machine && r.chance(1, 4) { Some(r.below(300) as u32) } else { None } }
     }
     fn execute(&self, s: &C34Scn) -> Outcome {
         let mut out = Outcome::default();
